@@ -29,7 +29,7 @@ use tower::ServiceExt;
 // ---------------------------------------------------------------- surface grammar
 
 const LEADS: [&str; 7] = ["MATCH", "OPTIONAL MATCH", "UNWIND", "WITH", "CALL", "CREATE", "MERGE"];
-const WRITES: [&str; 6] = ["CREATE", "MERGE", "SET", "REMOVE", "DELETE", "DETACH DELETE"];
+const WRITES: [&str; 9] = ["CREATE", "MERGE", "SET", "SET LABEL", "SET MAP", "REMOVE", "REMOVE LABEL", "DELETE", "DETACH DELETE"];
 const POSITIONS: [&str; 3] = ["first", "middle", "last"];
 const CASES: [&str; 3] = ["upper", "lower", "mixed"];
 /// quick uses the first three separators; thorough all five, plus leading white space
@@ -75,7 +75,12 @@ fn write_clause(write: &str) -> Clause {
         "CREATE" => cl("CREATE", "(m:N {k: 8})"),
         "MERGE" => cl("MERGE", "(m:N {k: 8})"),
         "SET" => cl("SET", "n.v = 5"),
+        // a SET / REMOVE whose only effect is on labels, and a map merge: statements whose one
+        // mutation is not a property assignment must be routed as writes too
+        "SET LABEL" => cl("SET", "n:Extra"),
+        "SET MAP" => cl("SET", "n += {v: 5}"),
         "REMOVE" => cl("REMOVE", "n.name"),
+        "REMOVE LABEL" => cl("REMOVE", "n:P"),
         "DELETE" => cl("DELETE", "n"),
         _ => cl("DETACH DELETE", "n"),
     }
@@ -86,7 +91,8 @@ fn write_needs_node(write: &str) -> bool {
 fn return_for(write: &str) -> &'static str {
     match write {
         "CREATE" | "MERGE" => "m.k",
-        "SET" => "n.v",
+        "SET" | "SET MAP" => "n.v",
+        "SET LABEL" | "REMOVE LABEL" => "n.k",
         "REMOVE" => "n.k",
         _ => "count(*)",
     }
